@@ -109,7 +109,38 @@ def explore(ctx, rng, count):
             ctx.diffs.append(d)
 
 
+def replay_twin(ctx, obj, prop):
+    data, n, fine = obj["data"], obj["n"], obj["unit"]
+
+    def run_spec(text, names, extra):
+        def go():
+            spec = impl.make_spec("ond", text, ["a", "b"], extra_decl=extra, unit=fine, sampling=(1, fine, 0.1))
+            spec.parse()
+            outs, vals = [], {nm: [] for nm in names}
+            for i in range(n):
+                outs.append(spec.update(i, [("a", data["a"][i]), ("b", data["b"][i])]))
+                for nm in names:
+                    vals[nm].append(spec.get_value(nm))
+            return outs, vals
+        return impl.guarded(go)
+    m = run_spec(obj["spec"], ["p", "q"], ["p", "q"])
+    if m[0] != "ok":
+        return False, "modular specification raised %r" % (m[1:],)
+    if prop == "C12":
+        lines = obj["spec"].split("\n")
+        for nm, ln in zip(("p", "q"), lines):
+            al = run_spec("out = " + ln.split("=", 1)[1].strip().rstrip(";"), [], [])
+            if al[0] != "ok" or not common.same_nums(m[1][1][nm], al[1][0]):
+                return False, "get_value(%r) returns %r, the stand-alone specification %r" % (nm, m[1][1][nm], al[1:])
+        return True, "get_value agrees with the stand-alone specifications"
+    i_ = run_spec(obj["inlined"], [], [])
+    ok = i_[0] == "ok" and common.same_nums(m[1][0], i_[1][0])
+    return ok, ("modular = inlined" if ok else "modular %r, inlined %r" % (m[1][0], i_[1:]))
+
+
 def replay(ctx, obj):
+    if obj.get("kind") == "twin-units":
+        return replay_twin(ctx, obj, "C12")
     if obj.get("monitor") in ("offc", "onc"):
         from .. import dense
         return dense.replay_getvalue(ctx, obj)
@@ -121,8 +152,80 @@ def replay(ctx, obj):
     return (v is None), (v.what if v else "get_value agrees with the stand-alone specifications on the replayed case")
 
 
+def twin_units_stream(ctx, rng, count, prop="C12"):
+    """Two named bounded past operators over the same operands whose bounds are written with the same numerals and different
+    units, in one online specification: `get_value` of each name against the stand-alone specification (C12), and the assertion
+    that refers to both against its inlined form (C09).  The online interpreter stores one operator per printed node name."""
+    for _ in range(count):
+        fine, coarse = rng.choice([("ms", "s"), ("us", "ms"), ("ns", "us")])
+        op = rng.choice(["once", "historically", "once", "since"])
+        lo = rng.choice(["0", "0", "1" + fine, "1"])
+        k = rng.randint(2, 3)
+        rhs = "(b >= %s)" % rng.choice(["0.5", "1.0", "2.0"]) if rng.random() < 0.5 else "(b)"
+
+        def app(unit):
+            body = "[%s,%d%s]" % (lo, k, unit)
+            return "((a) %s%s %s)" % (op, body, rhs) if op == "since" else "(%s%s %s)" % (op, body, rhs)
+        # a bound of k coarse units = 1000 k samples; the bounded since of rtamt is quadratic in the bound: one coarse unit and a
+        # short trace there
+        u2 = coarse if rng.random() < 0.7 else ""
+        if op == "since":
+            k = 1
+        p_txt, q_txt = app(fine), app(u2)
+        if p_txt == q_txt:
+            continue
+        n = rng.randint(3, 4) if op == "since" else rng.randint(5, 9)
+        data = {v: [rng.choice([-1.0, 0.0, 1.0, 2.0, 3.0, 5.0]) for _ in range(n)] for v in ("a", "b")}
+        comb = rng.choice(["and", "or"])
+
+        def run_spec(text, names, extra):
+            def go():
+                spec = impl.make_spec("ond", text, ["a", "b"], extra_decl=extra, unit=fine, sampling=(1, fine, 0.1))
+                spec.parse()
+                outs, vals = [], {nm: [] for nm in names}
+                for i in range(n):
+                    outs.append(spec.update(i, [("a", data["a"][i]), ("b", data["b"][i])]))
+                    for nm in names:
+                        vals[nm].append(spec.get_value(nm))
+                return outs, vals
+            return impl.guarded(go)
+        modular_text = "p = %s;\nq = %s;\nout = (p %s (not q))" % (p_txt, q_txt, comb)
+        inlined = "out = (%s %s (not %s))" % (p_txt, comb, q_txt)
+        ctx.evaluations += 1
+        ctx.count("stream:twin-units")
+        m = run_spec(modular_text, ["p", "q"], ["p", "q"])
+        i_ = run_spec(inlined, [], [])
+        alone = {"p": run_spec("out = " + p_txt, [], []), "q": run_spec("out = " + q_txt, [], [])}
+        rep = {"kind": "twin-units", "spec": modular_text, "inlined": inlined, "unit": fine, "data": data, "n": n,
+               "impl": m, "impl_inlined": i_, "standalone": alone}
+        if m[0] != "ok" or i_[0] != "ok" or alone["p"][0] != "ok" or alone["q"][0] != "ok":
+            if not (m[0] != "ok" and i_[0] != "ok"):
+                ctx.violations.append(Violation("modular / inlined / stand-alone raised %r / %r / %r: %s" % (m[:2], i_[:2], alone["p"][:2],
+                                                modular_text.replace("\n", "; ")), rep, stream="twin-units"))
+            continue
+        bad = None
+        if prop == "C12":
+            for nm in ("p", "q"):
+                if not common.same_nums(m[1][1][nm], alone[nm][1][0]):
+                    bad = "get_value(%r) returns %r, the stand-alone specification %r" % (nm, m[1][1][nm], alone[nm][1][0])
+                    break
+        else:
+            if not common.same_nums(m[1][0], i_[1][0]):
+                bad = "the modular specification returns %r, its inlined form %r" % (m[1][0], i_[1][0])
+        if bad:
+            ctx.violations.append(Violation("%s: %s (unit %s, period 1 %s)" % (bad, modular_text.replace("\n", "; "), fine, fine), rep,
+                                            stream="twin-units"))
+            if len(ctx.violations) >= 3:
+                return
+        else:
+            ctx.traces_validated += 1
+            ctx.nontrivial.add((modular_text, str(data)))
+
+
 def run(ctx):
     explore(ctx, ctx.subrng("getv"), ctx.budget(1200, 8000))
+    if not ctx.violations:
+        twin_units_stream(ctx, ctx.subrng("twin-units"), ctx.budget(40, 300))
     if not ctx.violations:
         try:
             from .. import dense
